@@ -307,7 +307,7 @@ func (c *C06) Do(in *hub.Instance, gg Ghost, op engine.Op, st *engine.Step) {
 
 func init() {
 	Register("C06", MultiRunner(func(tier string) ([]MultiCase, []string) {
-		dh, do, dl := 4, 3, 50*time.Second
+		dh, do, dl := 4, 3, 150*time.Second
 		if tier == "thorough" {
 			dh, do, dl = 6, 5, 12*time.Minute
 		}
